@@ -22,7 +22,8 @@ import (
 //	  cycle i: Lock() fails k_i times, then succeeds; wait_i ms later the session expires (StateExpired event);
 //	  down_i ms later it reconnects (StateConnected).  early=1: the expiry of the (single) cycle is delivered
 //	  INSIDE the successful Lock() call, before it returns (the lost wake-up).  tail: observation time after
-//	  the last scripted event.
+//	  the last scripted event.  stall=<ms> (optional): nobody reads the evaluator channel for the first <ms> of the
+//	  run (back-pressure: the evaluator is busy) — the requests made meanwhile are taken afterwards.
 //
 // Output: locks=<Lock calls> unlocks=<Unlock calls> gap=<0|stuck> live=<owned windows with an evaluation> pace=<ok|viol>
 //   gap counts evaluation requests that appear more than 60 ms after an expiry was broadcast and before the
@@ -36,6 +37,7 @@ type zkScript struct {
 	groups            int
 	mi                int64
 	tail              int
+	stall             int
 }
 
 type fakeZk struct {
@@ -66,7 +68,7 @@ func (f *fakeZk) ExistsW(string) (bool, *zk.Stat, <-chan zk.Event, error) {
 	return true, nil, nil, nil
 }
 func (f *fakeZk) Create(p string, _ []byte, _ int32, _ []zk.ACL) (string, error) { return p, nil }
-func (f *fakeZk) NewLock(string) protocol.ZookeeperLock                        { return (*fakeZkLock)(f) }
+func (f *fakeZk) NewLock(string) protocol.ZookeeperLock                          { return (*fakeZkLock)(f) }
 
 type fakeZkLock fakeZk
 
@@ -158,6 +160,9 @@ func runZkScenario(line string) string {
 	kv := kvFields(line)
 	sc := &zkScript{fails: parseIntList(kv["fails"]), wait: parseIntList(kv["wait"]), down: parseIntList(kv["down"]), early: kv["early"] == "1",
 		groups: int(atoi(kv["groups"])), mi: atoi(kv["mi"]), tail: int(atoi(kv["tail"]))}
+	if v, ok := kv["stall"]; ok {
+		sc.stall = int(atoi(v))
+	}
 	fake := &fakeZk{sc: sc, events: make(chan zk.Event, 16), block: make(chan struct{})}
 	if len(sc.fails) > 0 {
 		fake.failsLeft = sc.fails[0]
@@ -178,7 +183,15 @@ func runZkScenario(line string) string {
 	var evMu sync.Mutex
 	var evals []evalSeen
 	stop := make(chan struct{})
+	began := time.Now()
 	go func() {
+		if sc.stall > 0 {
+			select {
+			case <-time.After(time.Duration(sc.stall) * time.Millisecond):
+			case <-stop:
+				return
+			}
+		}
 		for {
 			select {
 			case req := <-app.EvaluatorChannel:
@@ -251,9 +264,19 @@ func runZkScenario(line string) string {
 	for _, ts := range byGroup {
 		sort.Slice(ts, func(i, j int) bool { return ts[i].Before(ts[j]) })
 		for i := 1; i < len(ts); i++ {
-			if ts[i].Sub(ts[i-1]) < time.Duration(sc.mi)*time.Second-30*time.Millisecond {
+			// a request made during the stall is taken late: the one after it may follow by that much sooner
+			if ts[i].Sub(ts[i-1]) < time.Duration(sc.mi)*time.Second-time.Duration(30+sc.stall)*time.Millisecond {
 				pace = "viol"
 			}
+		}
+	}
+	// however busy the evaluator is, a group is requested once per interval: over the whole run at most one request
+	// per started interval (+1 for a request made just before the end)
+	burst := "ok"
+	elapsed := time.Since(began)
+	for _, ts := range byGroup {
+		if int64(len(ts)) > int64(elapsed/(time.Duration(sc.mi)*time.Second))+2 {
+			burst = "viol"
 		}
 	}
 	gs := "0"
@@ -279,7 +302,7 @@ func runZkScenario(line string) string {
 		}
 	}
 	fake.mu.Unlock()
-	return fmt.Sprintf("locks=%d unlocks=%d gap=%s live=%d pace=%s prelock=%d", locks, unlocks, gs, live, pace, prelock)
+	return fmt.Sprintf("locks=%d unlocks=%d gap=%s live=%d pace=%s prelock=%d burst=%s", locks, unlocks, gs, live, pace, prelock, burst)
 }
 
 func runZkLoop(r *runner) {
@@ -325,6 +348,11 @@ func genZkLoop(g *gen) {
 		if i%7 == 3 {
 			// the lost wake-up: the expiry is delivered inside the successful Lock()
 			g.emit("Z run fails=%d wait=0 down=%d early=1 groups=%d mi=1 tail=700", g.intn(3), int(g.pick(100, 250)), 1+g.intn(3))
+			continue
+		}
+		if i%7 == 5 {
+			// back-pressure: the evaluator does not take requests for a while after the lock is won
+			g.emit("Z run fails=0 wait=%d down=%d early=0 groups=%d mi=1 tail=450 stall=%d", int(g.pick(600, 1250)), int(g.pick(30, 150)), 1+g.intn(3), int(g.pick(120, 250)))
 			continue
 		}
 		cycles := 1 + g.intn(3)
